@@ -18,7 +18,7 @@ func main() {
 	run := ev.Start("C03", "exploration")
 	run.Rule("seeded image graphs (single, index, nested index, schema1, artifacts, blob-typed entries, shared / duplicate / empty layers, inline data, foreign layers, referrers, referrers of referrers, digest tags; sha256 and sha512) " +
 		"x endpoint pairings (same repo, same registry with mount grant/decline/refuse, two registries, registry<->layout, two layouts) x target pre-states (empty, partial blobs, partial sub-images, stale tag, complete, tagged top manifest without content) " +
-		"x options (default, force-recursive, referrers, filtered referrers, digest-tags, include-external, fast-check) x registry features (referrers API, HEAD digest header, tag paging) x latency jitter and GOMAXPROCS 1/4/16; " +
+		"x options (default, force-recursive, referrers, filtered referrers, digest-tags, include-external, fast-check; referrers sent to another repository / layout than the image, sharing a layer or the empty config with it or not) x registry features (referrers API, HEAD digest header, tag paging) x latency jitter and GOMAXPROCS 1/4/16; " +
 		"non-trivial = the copy returned nil and the expectation holds >=2 objects; distinct = distinct case shape classes")
 	run.Assume("expectation rules are those of the statement: descent stops at manifests the target already held unless force-recursive; requested referrers / digest-tags are required for every manifest of the source closure",
 		"fast-check is only combined with plain copies; platform-filtered copies are not generated",
@@ -100,6 +100,7 @@ func main() {
 		}
 		r.Cleanup()
 	}
+	partElsewhere(run)
 	if int(run.Get("copies_succeeded")) < n*8/10 {
 		run.Inconclusive(fmt.Sprintf("only %d of %d generated copies succeeded; the workload is not representative", run.Get("copies_succeeded"), n))
 	}
